@@ -213,6 +213,19 @@ def run_check(prop, tier, replay=None):
                                        "case": small, "original_case": strip(cases[i]), "impl_obs": r["obs"][i],
                                        "count": len(sfail)})
         violations.append((p, ""))
+    # a fatal crash or hang of the implementation on a generated input is a failure of every property (no property
+    # permits it), and so is a case the property's line() dropped: a check may not count either as a pass.  Properties whose
+    # line() already turns a crash into a failing verdict set CRASH_IS_JUDGED = True (then the verdict decides).
+    if not sfail and not getattr(mod, "CRASH_IS_JUDGED", False):
+        crashed = [i for i, o in enumerate(r["obs"]) if isinstance(o, dict) and ("crash" in o or "panic" in o)
+                   and i not in r["lines"]]
+        if crashed:
+            i = crashed[0]
+            n_rep += 1
+            p = write_replay(prop, n_rep, {"property": prop, "kind": "implementation-crash-or-hang", "seed": seed,
+                                           "case": strip(cases[i]), "impl_obs": r["obs"][i], "count": len(crashed),
+                                           "note": "the implementation crashed, panicked or hung on this input and the case was not judged"})
+            violations.append((p, ""))
     if sknown and not kfs and not sfail:
         # failures inside an excused class, but known-findings.txt records no finding for this property: the class is a
         # stale tolerance (e.g. left behind after a fix) and must not hide anything
